@@ -52,6 +52,8 @@ func main() {
 	onlyRule := flag.String("rule", "", "internal: restrict output to one rule")
 	jsonOut := flag.Bool("json", false, "internal: print obligations as JSON")
 	manifest := flag.Bool("manifest", false, "print MANIFEST.json for the registered properties")
+	knownFuncs := flag.Bool("known-funcs", false, "developer tool: print the list of module functions (for spec/known_funcs.json)")
+	sweepall := flag.Bool("sweepall", false, "developer tool: neutralise every statement once and list which properties detect it")
 	recipes := flag.Bool("recipes", false, "debug: print everything the spec tables are compared with")
 	flag.Parse()
 	if *manifest {
@@ -79,6 +81,25 @@ func main() {
 		seed, _ = strconv.Atoi(s)
 	}
 
+	if *knownFuncs {
+		p, err := Load(*repo, quickConfigs[0], nil)
+		if err != nil {
+			fmt.Fprintln(os.Stderr, err)
+			os.Exit(2)
+		}
+		var names []string
+		for _, f := range p.Funcs {
+			names = append(names, f.String())
+		}
+		sort.Strings(names)
+		b, _ := json.MarshalIndent(names, "", " ")
+		fmt.Println(string(b))
+		return
+	}
+	if *sweepall {
+		sweepAll(*repo)
+		return
+	}
 	if *recipes {
 		p, err := Load(*repo, quickConfigs[0], nil)
 		if err != nil {
